@@ -939,7 +939,10 @@ struct BalWorld {
     {
         // the base coins: outputs of the others worth 100 units each, confirmed below everything the behaviour does
         std::vector<CTransactionRef> txs;
-        for (const char* n : {"F1", "F2", "F3"}) {
+        // (every input of the universe that is not an output of a universe transaction)
+        std::set<std::string> base_names;
+        for (const auto& name : uni.getKeys()) for (size_t k = 0; k < uni[name]["ins"].size(); ++k) if (!uni.exists(uni[name]["ins"][k][0].get_str())) base_names.insert(uni[name]["ins"][k][0].get_str());
+        for (const auto& n : base_names) {
             auto t = w.FaucetTx({CTxOut(100 * UNIT, w.sim->coinbaseSpk)});
             base[n] = {COutPoint(t->GetHash(), 0), t->vout[0]};
             txs.push_back(t);
